@@ -80,10 +80,6 @@ impl PartialEq for Decimal {
 }
 
 impl Decimal {
-    pub(crate) fn len(&self) -> usize {
-        self.len
-    }
-
     pub(crate) fn to_vec(&self) -> AvroResult<Vec<u8>> {
         self.to_sign_extended_bytes_with_len(self.len)
     }
